@@ -1,6 +1,7 @@
 package main
 
 import (
+	"encoding/json"
 	"fmt"
 )
 
@@ -50,4 +51,32 @@ func okOrErr(ok string, class int, err error) string {
 		return fmt.Sprintf("err %d", class)
 	}
 	return "ok " + ok
+}
+
+// extractHists finds history objects ({"sheet":..,"ops":[..]}) inside a replay case.
+func extractHists(v interface{}) []hist {
+	var out []hist
+	var walk func(x interface{})
+	walk = func(x interface{}) {
+		switch t := x.(type) {
+		case map[string]interface{}:
+			if _, ok := t["ops"]; ok {
+				b, _ := json.Marshal(t)
+				var h hist
+				if json.Unmarshal(b, &h) == nil {
+					out = append(out, h)
+				}
+				return
+			}
+			for _, y := range t {
+				walk(y)
+			}
+		case []interface{}:
+			for _, y := range t {
+				walk(y)
+			}
+		}
+	}
+	walk(v)
+	return out
 }
